@@ -303,6 +303,7 @@ func rbRun(out *vfh.Out, k int, failed bool, ms []rbMsg) {
 		} else {
 			c.N(0)
 		}
+		c.B(m.isRoute && len(m.dst) == 0)
 		msgs = append(msgs, m.build())
 	}
 	reqOK := false
@@ -360,7 +361,10 @@ func rbBad(r *vfh.Rand) rbMsg {
 	case 1:
 		m.family = unix.AF_INET
 	case 2:
-		m.dst = nil // a default route without RTA_DST
+		m.dst = nil // no RTA_DST: the default route when the length is 0, a broken invariant otherwise
+		if r.Bool() {
+			m.dlen = 0
+		}
 	case 3:
 		m.dst = []byte(net.IPv4(10, 0, 0, 0).To4())
 	case 4:
@@ -380,6 +384,15 @@ func verifAddresserRoutes(t *testing.T, r *vfh.Rand, out *vfh.Out) {
 	k += 4
 	for dl := 0; dl <= 128; dl++ {
 		rbRun(out, k, false, []rbMsg{{isRoute: true, family: unix.AF_INET6, dst: ab16("2001:db8::"), dlen: uint8(dl), oif: 1}})
+		k++
+	}
+	// the default route as the kernel sends it: destination length 0 and no RTA_DST attribute
+	// (`ip -6 route add unreachable default dev lo`), alone and inside a dump; and the same
+	// missing attribute with a non-zero length (a broken invariant)
+	def := rbMsg{isRoute: true, family: unix.AF_INET6, dst: nil, dlen: 0, oif: 1}
+	g1, g2 := rbMsg{isRoute: true, family: unix.AF_INET6, dst: ab16("fd00::"), dlen: 48, oif: 1}, rbMsg{isRoute: true, family: unix.AF_INET6, dst: ab16("2001:db8:1::"), dlen: 64, oif: 1}
+	for _, ms := range [][]rbMsg{{def}, {def, g1}, {g1, def}, {g1, def, g2}, {def, def}, {{isRoute: true, family: unix.AF_INET6, dst: nil, dlen: 64, oif: 1}}, {g1, {isRoute: true, family: unix.AF_INET6, dst: []byte{}, dlen: 0, oif: 1}}} {
+		rbRun(out, k, false, ms)
 		k++
 	}
 	for p := 0; p < 4; p++ {
@@ -421,12 +434,9 @@ func verifAddresserRoutes(t *testing.T, r *vfh.Rand, out *vfh.Out) {
 // C15 (routes).
 func verifAddresser(t *testing.T, r *vfh.Rand, out *vfh.Out) {
 	switch vfh.Prop() {
-	case "C14":
-		verifAddresserAddrs(t, r, out)
 	case "C15":
 		verifAddresserRoutes(t, r, out)
-	default:
+	default: // C13, C14: the address dump
 		verifAddresserAddrs(t, r, out)
-		verifAddresserRoutes(t, r, out)
 	}
 }
